@@ -209,6 +209,24 @@ pub fn run(ctx: &Ctx) -> PropResult {
         };
         judge_dt_pair(rec, (a_day, a_tod), (b_day, b_tod), tag);
     }));
+    // every case on a brand-new thread: the pair is the first thing that thread ever asks (per-thread memo state empty)
+    wls.push(Workload::cases("fresh_thread_first_pair", ctx.count(1_500, 40_000), move |rec, idx, rng| {
+        let b_day = match rng.below(4) {
+            0 => *rng.pick(&[0i64, -1, 1, 30, 31, 59, 365, -365, -366, 366, cal::DAYS_TO_1970, cal::MIN_DAY + 2, cal::MAX_DAY - 2]),
+            1 => rng.range_i64(-800, 800),
+            2 => rng.range_i64(w1.0, w1.1),
+            _ => rng.range_i64(cal::MIN_DAY + 2, cal::MAX_DAY - 2),
+        };
+        if idx % 2 == 0 {
+            let lo = b_day.clamp(cal::MIN_DAY + 2, cal::MAX_DAY - 80);
+            judge_row_dates(rec, lo, lo + 70, lo);
+        } else {
+            let a_day = (b_day + *rng.pick(&[0i64, 1, -1, 28, 31, 365, 366, -365]) * rng.range_i64(0, 3)).clamp(cal::MIN_DAY + 2, cal::MAX_DAY - 2);
+            let tod = *rng.pick(&[0i128, 1, D / 2, D - 1]);
+            judge_dt_pair(rec, (a_day, tod), (b_day.clamp(cal::MIN_DAY + 2, cal::MAX_DAY - 2), tod), "dt/fresh-thread-first-pair");
+        }
+    }).fresh(1));
+    wls.push(Workload::cases("offset_local_twins", ctx.count(4_000, 150_000), |rec, _, rng| super::localzone::twin_pair_case(rec, rng, "C07")));
     wls.push(Workload::cases("far_apart_pairs", ctx.count(60_000, 1_000_000), |rec, idx, rng| {
         let b_day = rng.range_i64(cal::MIN_DAY + 2, cal::MAX_DAY - 2);
         let a_day = if idx % 2 == 0 { rng.range_i64(cal::MIN_DAY + 2, cal::MAX_DAY - 2) } else { (b_day + rng.range_i64(-200_000, 200_000)).clamp(cal::MIN_DAY + 2, cal::MAX_DAY - 2) };
